@@ -1,7 +1,7 @@
 (* Properties_C04.v — C04: an async coroutine runs once, delivers to its bound party, frees once.
    Statements only; proofs are `exact <lemma of CoroVMProofs>`.  The machine state s is arbitrary in the step-level theorems
    (any number of coroutines, any scripts, any nesting depth of co_await chains, any start mode that led to s). *)
-From Cocls Require Import Base CoroVMDefs CoroVMProofs.
+From Cocls Require Import Base CoroVMDefs CoroVMProofs CoroVMOnce CoroVMLife CoroVMRuns.
 Local Open Scope nat_scope.
 
 (* delivery + frame: when the body of c ends with r (value or exception), r is stored in exactly the cell c was bound to
@@ -60,6 +60,44 @@ Theorem c04_start_free_promise : forall s me c f,
   log s' = EEnq c me why_discard :: ERetB me true :: EBind c (BFut f) :: log s.
 Proof. exact start_free_promise. Qed.
 Print Assumptions c04_start_free_promise.
+
+(* ---------- run level: any main script, any coroutine scripts, any run prefix ---------- *)
+(* frame_once: a frame is allocated at most once and freed at most once, never freed without having been allocated, and it has
+   been freed exactly when the coroutine is Done *)
+Theorem c04_frame_once : forall p m n c,
+  let s := steps n (init p m) in
+  nev (is_mk c) (log s) <= 1 /\ nev (is_free c) (log s) <= nev (is_mk c) (log s) /\
+  (nev (is_mk c) (log s) = 1 <-> stat (cs s c) <> Unmade) /\
+  (nev (is_free c) (log s) = 1 <-> stat (cs s c) = Done).
+Proof. exact frame_once. Qed.
+Print Assumptions c04_frame_once.
+
+(* body_once: the body finishes at most once, only if the coroutine was started (bound) exactly once, and then its frame is
+   freed; a started unfinished coroutine is not freed; a created-but-unstarted one has no Bind, no Fin, no Free *)
+Theorem c04_body_once : forall p m n c,
+  let s := steps n (init p m) in
+  nev (is_fin c) (log s) <= 1 /\ nev (is_bind c) (log s) <= 1 /\
+  nev (is_fin c) (log s) <= nev (is_bind c) (log s) /\ nev (is_fin c) (log s) <= nev (is_free c) (log s) /\
+  (stat (cs s c) = Started -> nev (is_bind c) (log s) = 1 /\ nev (is_fin c) (log s) = 0 /\ nev (is_free c) (log s) = 0) /\
+  (stat (cs s c) = Created -> nev (is_bind c) (log s) = 0 /\ nev (is_fin c) (log s) = 0 /\ nev (is_free c) (log s) = 0).
+Proof. exact body_once. Qed.
+Print Assumptions c04_body_once.
+
+(* the body never executes before the coroutine is started nor after it finished, and is never re-entered while running *)
+Theorem c04_body_not_reentered : forall p m n later c earlier,
+  log (steps n (init p m)) = later ++ ERun c :: earlier ->
+  rlc c earlier = 0 /\ nev (is_fin c) earlier = 0.
+Proof. exact never_resumed_while_running. Qed.
+Print Assumptions c04_body_not_reentered.
+
+(* terminal states (main script over, nobody stuck, nothing left unstarted = `EEnd 0 0`): every frame ever allocated was
+   freed exactly once and every started coroutine finished its body exactly once *)
+Theorem c04_terminal_all_freed : forall p m n c,
+  let s := steps n (init p m) in
+  count_stat s true = 0 -> count_stat s false = 0 ->
+  nev (is_free c) (log s) = nev (is_mk c) (log s) /\ nev (is_fin c) (log s) = nev (is_bind c) (log s).
+Proof. exact terminal_all_freed. Qed.
+Print Assumptions c04_terminal_all_freed.
 
 (* non-vacuity: a co_await chain of depth 2 ending in a throw, started to a future from normal code: the exception reaches
    each parent and finally the future; all three frames are freed; the trace satisfies the decidable form of C04 *)
